@@ -703,3 +703,37 @@ mod tests {
         Ok(())
     }
 }
+
+#[cfg(feature = "verif-hooks")]
+#[allow(missing_docs)]
+pub mod verif_net {
+    use super::*;
+    pub use super::BobState;
+    pub const MAX_MESSAGE_SIZE: usize = super::MAX_MESSAGE_SIZE;
+
+    #[derive(Debug, Clone)]
+    pub struct Frame(pub(super) super::Message);
+    impl Frame {
+        pub fn init(namespace: NamespaceId, message: crate::sync::ProtocolMessage) -> Self { Frame(super::Message::Init { namespace, message }) }
+        pub fn sync(message: crate::sync::ProtocolMessage) -> Self { Frame(super::Message::Sync(message)) }
+        pub fn abort(reason: AbortReason) -> Self { Frame(super::Message::Abort { reason }) }
+        pub fn to_postcard(&self) -> Vec<u8> { postcard::to_stdvec(&self.0).unwrap() }
+        pub fn from_postcard(b: &[u8]) -> Result<Self, postcard::Error> { postcard::from_bytes(b).map(Frame) }
+    }
+    #[derive(Debug, Default)]
+    pub struct FrameCodec(super::SyncCodec);
+    impl Decoder for FrameCodec {
+        type Item = Frame;
+        type Error = anyhow::Error;
+        fn decode(&mut self, src: &mut BytesMut) -> Result<Option<Frame>, anyhow::Error> { Ok(self.0.decode(src)?.map(Frame)) }
+    }
+    impl Encoder<Frame> for FrameCodec {
+        type Error = anyhow::Error;
+        fn encode(&mut self, item: Frame, dst: &mut BytesMut) -> Result<(), anyhow::Error> { self.0.encode(item.0, dst) }
+    }
+    pub async fn run_alice<R: AsyncRead + Unpin, W: AsyncWrite + Unpin>(
+        writer: &mut W, reader: &mut R, handle: &SyncHandle, namespace: NamespaceId, peer: PublicKey,
+    ) -> Result<SyncOutcome, ConnectError> {
+        super::run_alice(writer, reader, handle, namespace, peer).await
+    }
+}
